@@ -33,7 +33,7 @@ ASSUMPTIONS = [
     "infinite iterators (count, cycle, repeat(None)) are compared on a generated finite prefix",
     "Python 3.12 stdlib as the reference; batched(strict=True) (3.13) is emulated from its documentation",
 ]
-TECHNIQUE = "exhaustive small-domain enumeration + Hypothesis inputs, differential against stdlib itertools/functools"
+TECHNIQUE = "exhaustive small-domain enumeration + Hypothesis inputs (+ atheris coverage-guided campaigns over the same strategy in thorough), differential against stdlib itertools/functools"
 LEVEL_TEXT = ("Differential testing against the standard library: results (as lists) and exception classes must be "
               "equal for every enumerated and generated call; tee additionally checked over consumer interleavings "
               "(sequential plans and concurrent tasks) with a counting source. Exhaustive within the stated bounds, "
